@@ -75,4 +75,43 @@ P = C05Prop("C05", OPTS, OPTS_T, classify=classify, judge_kinds=[], judge_obj=Tr
                  "x {MS,SS} x {rk,expl_euler} and DirectCollocation degree 1..4 radau|legendre x N,M x grids x fixed/free/parametric horizon; plus, for every (degree 1..5, scheme), integral(1) must equal T.  Compared: opti.f and "
                  "ocp.value(ocp.objective) against the model's objective at every decision point.  non-trivial = has "
                  "objective terms; distinct by hash of the case")
-run, replay = P.run, P.replay
+
+
+def run(tier="quick", seed=0, jobs=16):
+    res = P.run(tier, seed, jobs)
+    # multi-stage: the total objective is the sum of all stage objectives and the master's terms
+    # (engine of C12; only the objective is judged here)
+    from . import c12
+    n = 24 if tier == "quick" else 240
+    cps = c12.gen_cases(seed + 55, n, c12.OPTS, 2)
+    rr = c12.run_rockit(cps, jobs)
+    mv = c12.model_multi(cps, [r.get("inputs") for r in rr], "C05multi")
+    nm = 0
+    for i, (mc, pts) in enumerate(cps):
+        r = rr[i]
+        if i not in mv or "error" in r or "mismatch" in r:
+            continue      # structural problems of multi-stage cases are C12's business
+        objs, mrows, _ = engine.model_rows(mv[i])
+        if engine.unjudgeable(objs, mrows, r):
+            continue
+        nm += 1
+        bad = [(a, b) for a, b in zip(r["objs"], objs) if not engine.close(a, b, scale=abs(b))]
+        if bad:
+            res["disagreements"].append({"property": "C05", "case": mc, "points": pts, "finding_key": None, "_multi": True,
+                                         "what": [{"what": "multi-stage OCP: the NLP objective is not the sum of the stage objectives and the master's terms",
+                                                   "rockit_vs_model": bad[:3]}]})
+    res["evaluations"] += len(cps)
+    res["distinct_nontrivial"] += nm
+    res["extra"]["multi_stage_objectives_compared"] = nm
+    res["rule"] += "  Plus multi-stage OCPs (1-3 stages, clones, master terms): total objective against the sum."
+    return res
+
+
+def replay(path):
+    import json
+    d = json.load(open(path))
+    if d.get("_multi"):
+        from . import c12
+        return c12.replay(path)
+    return P.replay(path)
+
